@@ -146,6 +146,25 @@ def genesis_values(work):
     return [uniq[k] for k in sorted(uniq)]
 
 
+def guard_txs():
+    """requests that must be REFUSED on the state left by populated_prefix(), each by a different stateful guard"""
+    def doc(d, key):
+        return dict(id=d, vms=[dict(n='v1', key=key, type='es19')], auth=[dict(n='v1', ded=False, key='', type='')], asrt=[], ex='')
+
+    def T(msg, signer):
+        return dict(msgs=[msg], signers=[signer], fee=0, exec='none')
+    d2 = doc('d2', 'k1')
+    return [
+        T(dict(type='pnft.DeleteDenom', id='n1', actor='a1'), 'a1'),                                                       # still holds tokens
+        T(dict(type='aol.AddRecord', owner='a1', topic='t1', writer='a1', key='k', val='v', feePayer='none'), 'a1'),     # a1 is not a writer of its own topic
+        T(dict(type='aol.CreateTopic', owner='a1', topic='t1', desc=''), 'a1'),                                            # exists
+        T(dict(type='did.Create', did='d2', doc=d2, vm='v1', vmDid='d2', proof=dict(key='k1', data=d2, seq=0), **{'from': 'a1'}), 'a1'),   # exists
+        T(dict(type='pnft.Mint', denom='n1', id='i1', actor='a1', name='x', desc='', uri='u', hash='', data=''), 'a1'),    # exists
+        T(dict(type='pnft.Transfer', denom='n1', id='i2', actor='a1', to='a1'), 'a1'),                                     # handed over to a2 earlier
+        T(dict(type='pnft.UpdateDenom', id='n2', actor='a1', name='z', symbol='', desc='', uri='', hash='', data=''), 'a1'),  # a2's denom
+    ]
+
+
 def shape_history(txs, shape):
     out, i = [], 0
     for n in shape:
@@ -307,12 +326,15 @@ def node_check(pid, tier, seed):
         if pid == 'C10':
             # a long run of (mostly empty) blocks over a populated state, a deposit to the burn address at both ends, one crash anywhere: whatever a module
             # keeps in process memory across blocks (counters, "last done at height" marks, caches) is lost by the restarted node and kept by the twin
-            long_shape = [1] + [0] * (8 if q else 11) + [1, 0]
+            guards = guard_txs()
+            long_shape = [1] + [0] * (8 if q else 11) + [1 + len(guards), 0]
             scheds3, st3, tr3 = node_schedules(work, [long_shape], 1, [0])
             states += st3
             trans += tr3
             dep = lambda n: dict(msgs=[dict(type='bank.Send', to='burn', denom='umed', amt=n, **{'from': 'a1'})], signers=['a1'], fee=0, exec='none')
-            blocks = [[dep(7)]] + [[] for _ in long_shape[1:-2]] + [[dep(3)], []]
+            # the late block also carries requests that stateful guards must refuse on the populated state (delete a denom that holds tokens, append by a
+            # non-writer, re-create what exists, act on a token that was handed over): a guard that lives in process memory is gone after a restart
+            blocks = [[dep(7)]] + [[] for _ in long_shape[1:-2]] + [[dep(3)] + guards, []]
             for si, sc in enumerate(scheds3):
                 jobs.append(dict(id='%s-long-%d' % (pid, si), cfg={}, prefix=populated_prefix(), blocks=blocks, schedule=sc['schedule'], upgradeAt=0))
             shapes = shapes + [long_shape]
@@ -420,7 +442,12 @@ def replicas_check(tier, seed):
             for pi, sa in enumerate(picks):
                 sb = lst[(pi * 7 + seed + len(lst) // 2) % len(lst)]
                 hist, noise = hists[(pi + seed) % len(hists)]
-                jobs.append(dict(id='C09-%s-%d' % ('x'.join(map(str, shp)), pi), cfg={}, blocks=shape_history(hist, list(shp)), noise=noise, schedA=sa, schedB=sb))
+                blocks = shape_history(hist, list(shp))
+                if pi % 2 == 1 and blocks and blocks[-1]:
+                    # every second job: the last transaction of the history is a deposit to the burn address (end-of-block processing that depends on
+                    # anything but the chain state - a timer, a counter kept in memory - shows between a restarted and a never-stopped replica)
+                    blocks[-1] = blocks[-1][:-1] + [dict(msgs=[dict(type='bank.Send', to='burn', denom='umed', amt=7, **{'from': 'a1'})], signers=['a1'], fee=0, exec='none')]
+                jobs.append(dict(id='C09-%s-%d' % ('x'.join(map(str, shp)), pi), cfg={}, blocks=blocks, noise=noise, schedA=sa, schedB=sb))
         # genesis files are input: replicas started from every genesis value of GenesisMC.tla (ordinary entries next to legal oddities such as zero
         # timestamps, tombstones, legacy entries, inconsistent counters), a short history on top
         gvals = genesis_values(work)
